@@ -73,15 +73,21 @@ PROPS.update({
                       "Pyro5.svr_multiplex.SocketServer_Multiplex._handleConnection", "Pyro5.server.Daemon._handshake", "Pyro5.protocol.recv_stub",
                       "Pyro5.server.Daemon._sendExceptionResponse#body"],
         "groups": [{"modules": ["specs.socket_model", "specs.pystruct", "specs.seqdict", "contracts.socketutil", "contracts.protocol"],
-                    "contracts": ["Pyro5.protocol.ReceivingMessage.__init__", "Pyro5.protocol.ReceivingMessage.validate", "Pyro5.protocol.ReceivingMessage.add_payload"]}],
+                    "contracts": ["Pyro5.protocol.ReceivingMessage.__init__", "Pyro5.protocol.ReceivingMessage.validate", "Pyro5.protocol.ReceivingMessage.add_payload"]},
+                   {"modules": ["specs.socket_model", "specs.pystruct", "specs.seqdict", "specs.opaque", "specs.daemon_model", "contracts.server_loops"],
+                    "contracts": ["Pyro5.svr_threads.SocketServer_Threadpool.events", "Pyro5.svr_threads.SocketServer_Threadpool.loop"]}],
         "harness": "replay/dispatch.py",
         "explanation": "exception containment proved against the weakest callee contracts (handleRequest / _handshake / _clientDisconnect may raise ANY Exception): "
                        "nothing escapes the per-connection job of the thread server (so the worker always returns to the pool), the refusal path, the multiplex "
                        "per-connection handler and accept path (except ConnectionClosedError when the listening socket itself is gone); recv_stub raises only its declared "
                        "classes on arbitrary bytes; an error reply is produced for any exception that can be reported.  Second contract group (shared with C06): the message "
                        "decoder itself - ReceivingMessage.__init__ / validate / add_payload - raises only ProtocolError (AssertionError for a tiling mismatch) on arbitrary "
-                       "header and payload bytes, whatever the length fields say.",
+                       "header and payload bytes, whatever the length fields say.  Third group: the thread server's accept path - events() turns an accepted connection into exactly "
+                       "one job offered to the pool once, denies (with a reason) exactly the jobs the pool refuses, and lets only OS errors of select/accept escape, before any "
+                       "job exists; loop() contains those, so that only the caller's own loop condition can end the request loop with an exception.",
         "assumptions": _COMMON_ASSUME + ["liveness (a silent peer blocking a read without COMMTIMEOUT), resource exhaustion and the scheduler are outside the technique",
+                                         "accept path: the pool is open while the loop runs; OS-raised errors carry (errno, text); the multiplex server's events()/loop() "
+                                         "selector loops are covered by the bounded harness only",
                                          "the accept loops SocketServer_*.events/loop around these handlers are covered by the bounded native harness only"],
     },
     "C13": {
